@@ -61,7 +61,8 @@ fn configs(thorough: bool) -> Vec<Cfg> {
 }
 
 fn position_lists(n: usize) -> Vec<Vec<usize>> {
-    vec![vec![0], vec![n - 1], vec![1, n / 2 + 1], vec![3, 3], (0..n).step_by(3).collect(), (0..n).collect()]
+    // at most 255 positions per list (the documented limit of a batch opening)
+    vec![vec![0], vec![n - 1], vec![1, n / 2 + 1], vec![3, 3], (0..n).step_by(3).take(255).collect(), (0..n.min(255)).collect()]
 }
 
 pub fn subs<E: Elt, H: ElementHasher<BaseField = E::BaseField> + 'static>(run: &Arc<Run>, hname: &'static str) -> Vec<Arc<dyn Sub>>
